@@ -156,6 +156,7 @@ fn main() {
                 "C09I" => gen_c09::gen_c09(&mut sh, &o, true),
                 "LOOPS" => gen_loops::gen_loops(&mut sh, &o),
                 "C11" => gen_pointwise::gen_c11(&mut sh, &o),
+                "COMP06" => gen_pointwise::gen_comp06(&mut sh, &o),
                 "C13" => gen_safety::gen_c13(&mut sh, &o, None),
                 "GEOM" => gen_geom::gen_geom(&mut sh, &o, &o.plan),
                 "C12DATA" => gen_geom::gen_c12_data(&mut sh, &o),
